@@ -236,7 +236,7 @@ class ComplexAngularCentralGaussianTrainer:
         y = normalize_observation(y)  # swap D and N dim
 
         if saliency is None:
-            quadratic_form = np.ones(*independent, N)
+            quadratic_form = np.ones((*independent, N))
         else:
             raise NotImplementedError
 
